@@ -176,9 +176,7 @@ def gen_center_params(rng, n):
                         seedtype=str(rng.choice(['int', 'state'])),
                         engine=(None if rng.random() < 0.4 else str(rng.choice(['lhs', 'sobol', 'halton']))),
                         seed=int(rng.integers(1 << 30))))
-        if out[-1]['engine'] == 'sobol':
-            out[-1]['k'] = int(rng.choice([1, 2, 4]))   # Sobol warns off powers of two
-            out[-1]['rows'] = max(out[-1]['rows'], out[-1]['k'] + 1)
+        # (Sobol warns when the count is not a power of two; the count must be honoured all the same)
     return out
 
 
